@@ -56,6 +56,8 @@ type Emitter struct {
 	nontriv  int
 }
 
+var flushEachLine = os.Getenv("VERIF_FLUSH") != ""
+
 func NewEmitter(path string) *Emitter {
 	f, err := os.Create(path)
 	if err != nil {
@@ -70,6 +72,9 @@ func (e *Emitter) Line(op, real string) {
 		panic("tab/newline in protocol line: " + op + " / " + real)
 	}
 	fmt.Fprintf(e.w, "%s\t%s\n", op, real)
+	if flushEachLine {
+		e.w.Flush() // VERIF_FLUSH=1: the lines written so far survive a crash of the real code (bin/vcheck sets it on the re-run after a crash)
+	}
 	e.lines++
 	e.curCase = append(e.curCase, op+" => "+real)
 }
